@@ -1,0 +1,21 @@
+//go:build verif
+
+// Verification hooks (read-only): compiled only with -tags verif.
+// Re-exports of the module-internal package internal/x25519ell2, which cannot be
+// imported from outside this module.
+
+package ntor
+
+import "gitlab.com/yawning/obfs4.git/internal/x25519ell2"
+
+// VerifScalarBaseMult calls x25519ell2.ScalarBaseMult(pub, repr, priv, tweak).
+func VerifScalarBaseMult(priv *[32]byte, tweak byte) (pub, repr [32]byte, ok bool) {
+	ok = x25519ell2.ScalarBaseMult(&pub, &repr, priv, tweak)
+	return
+}
+
+// VerifRepresentativeToPublic calls x25519ell2.RepresentativeToPublicKey.
+func VerifRepresentativeToPublic(repr *[32]byte) (pub [32]byte) {
+	x25519ell2.RepresentativeToPublicKey(&pub, repr)
+	return
+}
